@@ -174,3 +174,18 @@ def rules(ctx):
                      "cycle 3-opt search")
     strict_improver(ctx, "R3", PMIN_IMPROVE)
     strict_improver(ctx, "R3", MIN_IMPROVE)
+    # R4: further panic / non-termination hazards whose absence is visible in the shape of the code
+    from . import common, flownet
+    from ..rulelib import SCHEDULE, TRANSITION
+    fd_, edges = flownet.edge_sites(ctx)
+    for fld in ("lower_bound", "upper_bound"):
+        flownet.need(ctx, "R4.trip-%s-capped-by-trip-limit" % fld.replace("_", "-"), edges, "trip", fld, [call(NW_MFC)],
+                     "lower and upper bound of a trip edge are capped by the same (per-trip) formation limit, else lower > upper and the "
+                     "circulation is infeasible (network_simplex(..).unwrap() panics)")
+    from .C09 import cost_delta_form
+    cost_delta_form(ctx, common.sites_of(ctx, SCHEDULE))
+    from .C15 import counter_plain_sum
+    counter_plain_sum(ctx, common.sites_of(ctx, TRANSITION))
+    from .C16 import every_vehicle_type
+    for key, tag in (("server::solve_instance", "R4.server"), ("internal::run", "R4.internal")):
+        every_vehicle_type(ctx, key, tag)
